@@ -111,9 +111,9 @@ def check_clauses(chk, sc, out, history):
     payload = {"kind": "smooth-clauses", "sc": _plain(sc), "src": list(out["src"]), "history": history}
     tag = "smooth-clauses:%s:%s" % (sc["id"], history)
     T = len(sc["data"])
-    desc = "model %s data %s anticipated %s (%s)" % (sc["id"], _plain(sc["data"]), _plain(sc["ant"]), history)
+    desc = "model %s data %s anticipated %s measurement-shock means %s (%s)" % (sc["id"], _plain(sc["data"]), _plain(sc["ant"]), _plain(sc.get("wmean", ())), history)
     try:
-        m = model(out["src"], True, fresh=(history == "fresh"))
+        m = model(out["src"], bool(out.get("linear", True)), fresh=(history == "fresh"))
         span = ir.Span(per(1), per(T))
         db = ir.Databox()
         for i, n in enumerate(out["mvars"]):
@@ -125,6 +125,14 @@ def check_clauses(chk, sc, out, history):
                 db[n] = ir.Series(start=per(1), values=np.zeros(T))
             db[n][per(t)] = float(v)
             ant[(n, t)] = float(v)
+        # (the standard deviations of the measurement shocks differ from one where their means are given: clauses do not depend on them)
+        if len(out["mshocks"]):
+            m.assign(**{"std_" + n: (2.0 if len(sc.get("wmean", ())) else 1.0) for n in out["mshocks"]})
+        for (t, k, v) in sc.get("wmean", ()):
+            n = out["mshocks"][k - 1]
+            if n not in db:
+                db[n] = ir.Series(start=per(1), values=np.zeros(T))
+            db[n][per(t)] = float(v)
         if history == "simulate-first":
             db0 = ir.Databox.steady(m, ir.Span(per(0), per(T + 2)))
             for n in out["shocks"]:
@@ -134,7 +142,10 @@ def check_clauses(chk, sc, out, history):
     except Exception as ex:
         chk.mismatch(tag + ":raised:" + type(ex).__name__, desc + ": raised %r" % (ex,), payload)
         return
-    sm = lambda n, t: val_t(res, "smooth_med", n, t)
+    logv = set(out.get("logv", ()))
+    raw = lambda n, t: val_t(res, "smooth_med", n, t)          # reported in levels
+    # (the equations of the spec are written in the logarithms of log-variables)
+    sm = lambda n, t: (math.log(raw(n, t)) if raw(n, t) > 0 else math.nan) if n in logv else raw(n, t)
     for t in range(1, T + 1):
         for i, n in enumerate(out["mvars"]):
             d = sc["data"][t - 1][i]
@@ -161,16 +172,16 @@ def check_clauses(chk, sc, out, history):
     try:
         dbs = ir.Databox.steady(m, ir.Span(per(0), per(T + 1)))
         for n in out["vars"]:
-            dbs[n][per(1)] = sm(n, 1)
+            dbs[n][per(1)] = raw(n, 1)
         for n in list(out["shocks"]) + list(out["mshocks"]):
             for t in range(2, T + 1):
-                dbs[n][per(t)] = sm(n, t)
+                dbs[n][per(t)] = raw(n, t)
         for (n, t), v in ant.items():
             dbs[n][per(t)] = v
         sim = quiet(m.simulate, dbs, ir.Span(per(2), per(T)), method="first_order")
         for n in list(out["vars"]) + list(out["mvars"]):
             for t in range(2, T + 1):
-                g, e = float(sim[n].get_data(per(t))[0, 0]), sm(n, t)
+                g, e = float(sim[n].get_data(per(t))[0, 0]), raw(n, t)
                 if math.isnan(e):
                     continue
                 if not abs(g - e) <= 1e-7 * max(1.0, abs(e)):
